@@ -32,6 +32,26 @@ CHECKS.update({
             "Trusts twobody's KeplerOrbit for the curve checks; tables are sampled.", "6/C17"),
 })
 
+CHECKS.update({
+    "C01": ("reference-model oracle (50-digit mpmath closed form) on every value returned by marginal_ln_likelihood; "
+            "ASan/UBSan replay of the workload on the rebuilt kernel (thorough)",
+            "Exploration: thousands (quick) to ~3e5 (thorough) values over the product of data layouts, units, priors and "
+            "nonlinear rows, each compared with the closed-form Gaussian marginal built from the generator's own record, "
+            "within a tolerance measured from the round-off of the kernel's algorithm; K column cross-checked with an "
+            "independent Kepler solver.",
+            "Trusts mpmath, LAPACK in the tolerance estimate, twobody's solver for e<=0.99 (cross-checked); numerically "
+            "singular designs (cond B > 1e14) are excluded and counted.", "6/C01"),
+    "C08": ("contract on validate_prepare_data (unique velocity tags) + likelihood oracle on list/dict data",
+            "Exploration: seeded survey layouts (interleaved, reversed, ties, dict key orders); each call judged by a "
+            "contract that recovers every merged row's true survey, and end-to-end by the closed-form likelihood of the "
+            "correctly labelled union.",
+            "Unique velocity tags identify rows; for dict input any reference survey is accepted.", "6/C08"),
+    "C12": ("model-based history monitor: real write/append/read/read_batch vs an in-memory model after every step",
+            "Exploration: seeded histories of 3-12 file operations including incompatible appends; file content, "
+            "refusal-without-change (sha256) and read_batch rows are checked after every step.",
+            "Trusts h5py/pytables/astropy serialisation; histories are sampled.", "6/C12"),
+})
+
 NOT_YET = {
 }
 
